@@ -73,7 +73,8 @@ func (self LazyArgumentMap) ValidateInputs(types *syntax.TypeLookup,
 		t := param.GetTname()
 		return t.String()
 	}
-	for _, param := range expected.Table {
+	for _, id := range sortedKeys(expected.Table) {
+		param := expected.Table[id]
 		if val, ok := self[param.GetId()]; !ok {
 			fmt.Fprintf(&result, "Missing input parameter '%s'\n", param.GetId())
 			continue
@@ -90,7 +91,8 @@ func (self LazyArgumentMap) ValidateInputs(types *syntax.TypeLookup,
 				err.Error())
 		}
 	}
-	for key, val := range self {
+	for _, key := range sortedKeys(self) {
+		val := self[key]
 		if _, ok := expected.Table[key]; !ok {
 			isOptional := false
 			for _, params := range optional {
@@ -148,7 +150,8 @@ func (self LazyArgumentMap) ValidateOutputs(types *syntax.TypeLookup,
 		t := param.GetTname()
 		return t.String()
 	}
-	for _, param := range expected.Table {
+	for _, id := range sortedKeys(expected.Table) {
+		param := expected.Table[id]
 		if val, ok := self[param.GetId()]; !ok {
 			fmt.Fprintf(&result, "Missing output value '%s'\n", param.GetId())
 			continue
@@ -165,7 +168,8 @@ func (self LazyArgumentMap) ValidateOutputs(types *syntax.TypeLookup,
 				err.Error())
 		}
 	}
-	for key, val := range self {
+	for _, key := range sortedKeys(self) {
+		val := self[key]
 		if _, ok := expected.Table[key]; !ok {
 			isOptional := false
 			for _, params := range optional {
